@@ -81,6 +81,12 @@ def _history(ctx, cg, samples, maxlen=8, corrupt=False):
     for _ in range(rng.randrange(1, maxlen)):
         c = rng.random()
         o, f, sets, b = rng.choice(same)
+        if cg.cls in gen.CONTAINER and rng.random() < 0.12:
+            # container protocol at any point of a history: len(obj) / obj[i] (indices around the element count)
+            cop = gen.container_op(rng, cg.cls, f)
+            if cop is not None:
+                ops.append(cop)
+                continue
         if c < 0.25 and cg.can_pack:
             ops.append(cg.pack_op())
         elif c < 0.55 and b is not None and cg.can_unpack:
